@@ -28,7 +28,7 @@ WIDTH = {"B": 1, "W": 2, "L": 4, "Q": 8}
 
 def split_width(mn):
     """MOVL -> ("MOV", 4); mnemonics without a width suffix -> (mn, 0)"""
-    for base in ("MOV", "XCHG", "TEST", "CMP", "DEC", "INC"):
+    for base in ("MOV", "XCHG", "TEST", "CMP", "DEC", "INC", "BTS"):
         if mn.startswith(base) and mn[len(base):] in WIDTH:
             return base, WIDTH[mn[len(base):]]
     return mn, 0
@@ -75,6 +75,8 @@ def extract_asm(text):
     if not in_fn:
         raise ValueError("TEXT archAcquireSpinlock not found")
     labels, code = {}, []
+    lines = [part.strip() for line in lines for part in line.split(";") if part.strip()]
+    locked = False
     for line in lines:
         m = re.fullmatch(r"(\w+):\s*(.*)", line)
         if m:
@@ -82,18 +84,24 @@ def extract_asm(text):
             line = m.group(2).strip()
             if not line:
                 continue
-        code.append(line)
+        if line.upper() == "LOCK":           # prefix of the next instruction
+            locked = True
+            continue
+        code.append(("LOCK " if locked else "") + line)
+        locked = False
     prog, listing = [], []
     args = {}
     for k, line in enumerate(code):
-        parts = line.split(None, 1)
+        lockpfx = line.startswith("LOCK ")
+        parts = (line[5:] if lockpfx else line).split(None, 1)
         mn = parts[0].upper()
         ops = [parse_operand(x) for x in parts[1].split(",")] if len(parts) > 1 else []
-        if mn in ("JNZ", "JNE", "JZ", "JE", "JEQ", "JMP"):
+        JUMPS = ("JNZ", "JNE", "JZ", "JE", "JEQ", "JMP", "JC", "JCS", "JNC", "JCC")
+        if mn in JUMPS:
             if len(parts) != 2 or parts[1].strip() not in labels:
                 raise ValueError("jump to unknown label: " + line)
         for o in ops:
-            if o[0] == "unknown" and mn not in ("JNZ", "JNE", "JZ", "JE", "JEQ", "JMP"):
+            if o[0] == "unknown" and mn not in JUMPS:
                 raise ValueError("operand not understood: " + line)
         kinds = tuple(o[0] for o in ops)
         base, w = split_width(mn)
@@ -102,8 +110,16 @@ def extract_asm(text):
             if not 0 <= n <= 3:
                 raise ValueError("immediate outside the modelled range 0..3: " + line)
             return n
+        if lockpfx and base not in ("BTS", "XCHG"):
+            raise ValueError("LOCK prefix on an instruction outside the dictionary: " + line)
         if mn in ("PAUSE", "NOP") and not ops:
             i = ins("nop")
+        elif base == "BTS" and w in (4, 8) and kinds == ("imm", "mem") and ops[0][1] == 0:
+            i = ins("lbts" if lockpfx else "bts", s=ops[1][1], w=w)
+        elif mn in ("JC", "JCS"):
+            i = ins("jc", to=labels[parts[1].strip()])
+        elif mn in ("JNC", "JCC"):
+            i = ins("jnc", to=labels[parts[1].strip()])
         elif mn == "RET" and not ops:
             i = ins("ret")
         elif mn == "MOVQ" and kinds == ("arg", "reg"):
